@@ -459,7 +459,7 @@ func runComplete(e *ev.Env) {
 			}
 		}
 	})
-	maxItems := e.N(4, 6)
+	maxItems := e.N(5, 6)
 	total := 0
 	pow := 1
 	for n := 1; n <= maxItems; n++ {
@@ -511,7 +511,7 @@ func runComplete(e *ev.Env) {
 	e.Note("enum_bound", fmt.Sprintf("all item strings of length 1..%d over %v inside the delimited class x all legal fillings over %q x 8 configs", maxItems, cItems, cVals))
 
 	// random larger patterns
-	e.Cases("random", e.N(20000, 400000), func(c *ev.Case) {
+	e.Cases("random", e.N(100000, 2000000), func(c *ev.Case) {
 		r := c.R
 		n := r.Range(3, 10)
 		lits := []string{"a", "b", "ab", "/", "-", ".", "/api", "/v1/", "-x", ".json", "/Shop", "Ab", "/q"}
